@@ -105,6 +105,12 @@ Theorem C10_mix_sender_order : forall n progs sched t i,
   xsends n i (progs t) = mine_of t (xapp s (S i)) ++ xpending n i (ts t).
 Proof. exact mix_sender_order_n. Qed.
 Print Assumptions C10_mix_sender_order.
+Theorem C10_mix_end_to_end : forall n progs sched,
+  let '(s, ts) := xrun sched (xinit n progs) in
+  swept (xpops s) = popped 0 (xpops s) ++ xq s 0 ++ inflight s ts /\
+  forall i, exists rest, map snd (xapp s (S i)) = popped (S i) (xpops s) ++ rest.
+Proof. exact mix_end_to_end. Qed.
+Print Assumptions C10_mix_end_to_end.
 (* the hypotheses are met by real runs: three threads, two sub-ports, every kind of use at once *)
 Example C10_mix_nontrivial :
   let progs := fun t => match t with
